@@ -3,6 +3,7 @@
 
 #include "stream.h"
 #include <fcntl.h>
+#include <limits.h>
 #include <stdio.h>
 #include <string.h>
 #include <sys/mman.h>
@@ -264,6 +265,44 @@ stream_lastclock(struct stream *stream)
 	return stream->lastclock;
 }
 
+/* Returns the size in bytes of the event that begins at the given offset, or
+ * -1 if the event doesn't fit in the stream. Only reads the fields of the
+ * event that are known to be inside the stream. */
+static int64_t
+event_size_at(struct stream *stream, int64_t offset)
+{
+	int64_t left = stream->size - offset;
+	int64_t size = (int64_t) sizeof(struct ovni_ev_header);
+
+	if (left < size)
+		return -1;
+
+	const struct ovni_ev *ev = (const struct ovni_ev *) &stream->buf[offset];
+
+	if (ev->header.flags & OVNI_EV_JUMBO) {
+		size += (int64_t) sizeof(ev->payload.jumbo.size);
+
+		if (left < size)
+			return -1;
+
+		size += (int64_t) ev->payload.jumbo.size;
+
+		/* The rest of the emulator handles the event size as an int */
+		if (size > INT_MAX)
+			return -1;
+	} else {
+		int payload = ev->header.flags & 0x0f;
+
+		if (payload != 0)
+			size += payload + 1;
+	}
+
+	if (left < size)
+		return -1;
+
+	return size;
+}
+
 int
 stream_step(struct stream *stream)
 {
@@ -274,7 +313,7 @@ stream_step(struct stream *stream)
 
 	/* Only step the offset if we have loaded an event */
 	if (stream->cur_ev != NULL) {
-		stream->offset += ovni_ev_size(stream->cur_ev);
+		stream->offset += event_size_at(stream, stream->offset);
 
 		/* It cannot pass the size, otherwise we are reading garbage */
 		if (stream->offset > stream->size) {
@@ -291,14 +330,14 @@ stream_step(struct stream *stream)
 		}
 	}
 
-	stream->cur_ev = (struct ovni_ev *) &stream->buf[stream->offset];
-
-	/* Ensure the event fits */
-	if (stream->offset + ovni_ev_size(stream->cur_ev) > stream->size) {
+	/* Ensure the event fits before reading it */
+	if (event_size_at(stream, stream->offset) < 0) {
 		err("stream '%s' ends with incomplete event",
 				stream->relpath);
 		return -1;
 	}
+
+	stream->cur_ev = (struct ovni_ev *) &stream->buf[stream->offset];
 
 	int64_t clock = stream_evclock(stream, stream->cur_ev);
 
